@@ -27,8 +27,8 @@ def R(s):
 
 def describe(tier):
     q = tier == 'quick'
-    return dict(bounds=dict(contents='all contents of length <= %d (index/slice/mutators), <= %d (search)' % (6 if q else 8, 7 if q else 9),
-                            slice_triples='all a,b in {None} U [-L-2, L+2], c in {None,+-1,+-2,+-3,+-L,+-(L+1)} on index-plane contents for L <= %d' % (9 if q else 12),
+    return dict(bounds=dict(contents='all contents of length <= %d (index/slice/mutators), <= %d (search)' % (6 if q else 11, 7 if q else 12),
+                            slice_triples='all a,b in {None} U [-L-2, L+2], c in {None,+-1,+-2,+-3,+-L,+-(L+1)} on index-plane contents for L <= %d' % (9 if q else 20),
                             search='patterns of length 1..3 and byte patterns; windows None,0..L+1,-1; bytealigned None/False/True; count None,0,1,2',
                             long_data='16, 17, 24, 33, 64, 65 bits' + ('' if q else '; 8191, 8192, 8193, 16400 bits (reverse-scan chunk boundary)'),
                             toggles='every sequence of <= %d events from {toggle, 16 representative calls}' % (3 if q else 4)),
@@ -40,12 +40,12 @@ def describe(tier):
 def shards(tier, seed):
     q = tier == 'quick'
     out = []
-    for L in range(0, 10 if q else 13):
+    for L in range(0, 10 if q else 21):
         out.append(dict(kind='triples', L=L))
-    conts = list(families.all_bits(6 if q else 8))
+    conts = list(families.all_bits(6 if q else 11))
     for part in families.chunk(conts, 24 if q else 48):
         out.append(dict(kind='mut', conts=part))
-    sconts = list(families.all_bits(7 if q else 9))
+    sconts = list(families.all_bits(7 if q else 12))
     for part in families.chunk(sconts, 24 if q else 64):
         out.append(dict(kind='search', conts=part))
     longs = []
